@@ -1,6 +1,6 @@
 """C04 — a comptime block yields what the same code yields at run time.
 
-Metamorphic: every generated program holds ~8 "blocks". A block is a deterministic body of a random result type (all integer
+Metamorphic: every generated program holds 12 "blocks". A block is a deterministic body of a random result type (all integer
 widths, f32/f64, bool, char, str, arrays, nested structs, enums with payloads, optionals, error unions, `type`) that is evaluated
 twice in the same program: once inside `comptime { ... }` (as a global, typed global, global referenced by another global, `::` /
 `:=` / annotated local, inline argument, inside a function called twice, inside a run-time loop, inside a lambda, wrapped in a
@@ -21,7 +21,7 @@ from .. import capyrun as R
 from .. import c04_gen as G
 
 RULE = ("block = (result type shape, placement of the comptime block, pairing mode (same function called at compile time and at run time / body "
-        "duplicated textually / derived from another comptime global), set of language features used in the body); ~8 blocks per program, every block "
+        "duplicated textually / derived from another comptime global), set of language features used in the body); 12 blocks per program, every block "
         "has a distinct value; non-trivial = the program was accepted, the run-time copy printed exactly the value python computed for the body and "
         "the comptime copy was printed completely or the program died while printing it; distinct = distinct (shape, placement, mode, feature set) "
         "tuples. side-effect blocks, negative programs (pointer / function results), the generic-function probe and memcheck runs are counted as "
@@ -37,7 +37,7 @@ ASSUME = ["the value of a body is computed in python from the README meaning of 
           "a program that dies while printing the comptime copy of block k is a violation of block k; the blocks after it are not judged in that program "
           "(str-carrying blocks are therefore placed last)"]
 
-BLOCKS_PER_PROG = 8
+BLOCKS_PER_PROG = 12
 PLACEMENTS = [("glob", 14), ("glob_typed", 8), ("glob_ref", 6), ("loc_const", 12), ("loc_mut", 10), ("loc_typed", 8), ("inline", 8), ("in_fn", 7),
               ("in_loop", 6), ("in_lambda", 5), ("wrap_nested", 6), ("imported", 6)]
 EXTRA_DECLS = "vr_str :: (id: i64, s: str) extern;\nputs :: (s: str) -> i32 extern;\n"
@@ -59,7 +59,6 @@ def derive_value(rng, T, v):
     """a value of T that shares parts with v (the value of another comptime global) -> (new value, recipe)"""
     lo_hi = G.int_range(T) if T.kind == "int" else None
     if T.kind == "int":
-        a = G.small_near(rng, lo_hi[0], lo_hi[1], v, span=40)
         # new = v + d with d small when possible
         for _ in range(8):
             d = rng.range(-40, 40)
@@ -140,9 +139,7 @@ def make_program(seed, idx, nblocks=BLOCKS_PER_PROG, padfree=False):
         if T is None:
             blks.append(f"blk_{k} :: () {{\n    vr_flush();\n    puts(\"RT-{k}.\");\n    vr_flush();\n    comptime {{ puts(\"CT-{k}.\"); }};\n    vr_ev({BC});\n}}")
             continue
-        pr = env.pr(T) if T.kind in ("struct", "enum", "opt", "eu") else None
-        if pr is None:
-            pr = env.pr(T)          # scalars, arrays, str, type: a printer function as well (same code for both copies)
+        pr = env.pr(T)              # one printer function per type: both copies are printed by the same code
         meta["exp"] = [list(x) for x in G.leaves(T, b["value"], 0)]
         body_ct = [G.resolve_ct(s, True) for s in b["stmts"]]
         body_rt = [G.resolve_ct(s, False) for s in b["stmts"]]
@@ -170,6 +167,9 @@ def make_program(seed, idx, nblocks=BLOCKS_PER_PROG, padfree=False):
         else:
             CE = "comptime {\n" + indent(ct_mark + body_ct + [e_ct], 2) + "    }"
             RE = "{\n" + indent(body_rt + [e_rt], 2) + "    }"
+        meta["src"] = {"comptime": CE[:500], "run_time": RE[:200]}
+        if b["mode"] == "fn":
+            meta["src"]["function"] = ftxt[:600]
         lines = ["vr_flush();"] + rt_mark
         lines.append(f"rt_{k} := {RE};" if T.kind == "type" else f"rt_{k} : {T.name} = {RE};")
         lines += [f"{pr}({BR}, rt_{k});", "vr_flush();"]
@@ -346,8 +346,8 @@ def judge_program(files, metas, c, r):
                 got = Cs[diff] if diff < len(Cs) else None
                 wv = want[diff] if diff < len(want) else None
                 died = got is None and crashed
-                if died:
-                    stopped = True
+                if crashed and len(Cs) < len(want):
+                    stopped = True          # the program died inside this block: nothing after it was executed
                 if model_bad and not died:
                     out["inconc"].append(f"{desc}: run-time copy disagrees with the model AND with the comptime copy: {model_bad[:2]}")
                     continue
@@ -444,7 +444,7 @@ def run_job(job):
             sample = None
             if idx < 4 and res["ok"]:
                 m = res["ok"][0]
-                sample = {"block": f"{m['shape']} / {m['placement']} / {m['mode']}", "features": m["feats"],
+                sample = {"block": f"{m['shape']} / {m['placement']} / {m['mode']}", "features": m["feats"], "source": m.get("src"),
                           "observed_comptime": [e for e in (r.out.splitlines() if r else []) if e.split(" ")[1:2] and e.split(" ")[1].isdigit()
                                                 and m["k"] * 1000 + 500 <= int(e.split(" ")[1]) < m["k"] * 1000 + 1000][:6],
                           "expected": [x[:3] for x in m["exp"][:6]]}
@@ -496,8 +496,8 @@ def run(tier, seed):
     C.build_cli()
     C.build_rt()
     work = C.fresh_dir("C04")
-    nprog = 250 if tier == "quick" else 5000
-    nmem = 6 if tier == "quick" else 64
+    nprog = 160 if tier == "quick" else 2500
+    nmem = 6 if tier == "quick" else 48
     jobs = [("mem", work, seed, i) for i in range(nmem)]
     jobs += [("neg", work, seed, i, nt) for i, nt in enumerate(NEGATIVES)] + [("probe", work, seed, i, nt) for i, nt in enumerate(PROBES)]
     jobs += [("prog", work, seed, i) for i in range(nprog)]
@@ -528,6 +528,8 @@ def run(tier, seed):
     pinned, notes = R.pinned_internal_errors("C04", work)
     viol += pinned
     seen, uniq = {}, []
+    # report, per signature, the violation with the smallest program
+    viol.sort(key=lambda v: sum(len(t) for t in ((v.get("witness") or {}).get("files") or {}).values()))
     for v in viol:
         s = v["key"] + "|" + v["sig"]
         if s not in seen:
